@@ -438,6 +438,8 @@ def brackets_balanced(lhs, ctx):
     """Element øβ
     (str) -> is lhs balanced?
     """
+    if vy_type(lhs, simple=True) is list:
+        return vectorise(brackets_balanced, lhs, ctx=ctx)
     brackets = {"(": ")", "[": "]", "{": "}", "<": ">"}
     temp = []
     for char in lhs:
@@ -645,6 +647,8 @@ def copy_sign(lhs, rhs, ctx):
     """Element ∆±
     (num, num) -> math.copysign(a, b)
     """
+    if list in vy_type(lhs, rhs, simple=True):
+        return vectorise(copy_sign, lhs, rhs, ctx=ctx)
     return multiply(
         vy_abs(lhs, ctx), (-1 if less_than(rhs, 0, ctx) else 1), ctx
     )
@@ -1195,6 +1199,8 @@ def flip_brackets_vertical_palindromise(lhs, ctx):
     """Element øM
     (str) -> lhs vertically palindromised without duplicating the center, with brackets flipped.
     """
+    if vy_type(lhs, simple=True) is list:
+        return vectorise(flip_brackets_vertical_palindromise, lhs, ctx=ctx)
     result = lhs.split("\n")
     for i in range(len(result)):
         result[i] += invert_brackets(result[i][:-1][::-1])
@@ -3164,7 +3170,7 @@ def roman_numeral(lhs, ctx):
                 result += ints[i]
                 lhs = lhs[len(n) :]
         return result
-    elif vy_type(lhs) is list:
+    elif vy_type(lhs, simple=True) is list:
         return vectorise(roman_numeral, lhs, ctx=ctx)
 
 
